@@ -921,6 +921,11 @@ func (o *Origins) phi(ph *ssa.Phi) *Ex {
 		}
 		gather(steps, 0)
 		if ok && op != "" {
+			// `s := make([]T, 0, n) / nil; for _, x := range X { s = append(s, f(x)) }` with the append on every
+			// iteration is the element-wise image of X, like `s := make([]T, len(X)); s[i] = f(x)`
+			if op == "append" && !partial && len(stepEx) == 1 && stepEx[0].K != "spread" && l.RangeOf != nil && len(inits) == 1 && emptySliceInit(inits[0]) {
+				return &Ex{K: "map", Args: []*Ex{o.Of(l.RangeOf), stepEx[0]}, V: ph, Idx: -1}
+			}
 			if partial {
 				op += "?"
 			}
@@ -1719,3 +1724,15 @@ func (o *Origins) escapeSet(root ssa.Value) map[ssa.Value]bool {
 }
 
 type escKey struct{ v ssa.Value }
+
+// emptySliceInit: the value is an empty slice - nil, or make([]T, 0[, cap]).
+func emptySliceInit(v ssa.Value) bool {
+	switch x := v.(type) {
+	case *ssa.Const:
+		return x.Value == nil
+	case *ssa.MakeSlice:
+		n, ok := constInt(x.Len)
+		return ok && n == 0
+	}
+	return false
+}
